@@ -6,6 +6,8 @@ package app
 // overwrite, one outcome, success means done).
 
 import (
+	"strings"
+	"sync"
 	"encoding/json"
 	"fmt"
 	"testing"
@@ -254,11 +256,19 @@ func TestVerifC06(t *testing.T) {
 			variant{"light", rq, &faultSpec{Chan: "sql", Stmt: "ChangeSource", At: "h3", Occ: 0, Kind: "fail"}, clean, "flow", -1, "", true},
 		)
 	}
+	// the status query of the catch-up wait fails for as long as the manager stays in the activation that re-pointed the
+	// new master (a MySQL-side failure lasting arbitrarily long): the attempt must fail and be counted
+	for _, rq := range []reqSpec{{Kind: "to", To: "h2"}, {Kind: "worker", To: "h2"}} {
+		vars = append(vars, variant{"catchupqueryfail", rq, nil, stuck, "frozen", -1, "", false})
+	}
 	runs := 0
 	k := 0
 	for _, v := range vars {
 		for _, limit := range []int{1, 2, 3} {
 			for _, tmo := range []int{12, 3600} {
+				if v.name == "catchupqueryfail" && limit != 2 {
+					continue
+				}
 				k++
 				if k%sn != si {
 					continue
@@ -269,7 +279,15 @@ func TestVerifC06(t *testing.T) {
 					Cfg: map[string]any{"catchup_timeout": 2, "max_attempts": limit, "switchover_timeout": tmo, "failover": v.second == "auto" || v.second == "race"}}
 				var start time.Time
 				var snaps = map[int][2]string{}
+				var cq *c06CatchupQueryHook
 				res := vRun(t, &sc, vRunOpts{keepTrace: true,
+					extraHook: func(s *vSim) verifsim.MyHook {
+						if v.name != "catchupqueryfail" {
+							return nil
+						}
+						cq = &c06CatchupQueryHook{}
+						return cq
+					},
 					setup: func(s *vSim) {
 						start = s.start
 						if v.light {
@@ -279,6 +297,9 @@ func TestVerifC06(t *testing.T) {
 						}
 						prev := s.onEv
 						s.onEv = func(ev *verifsim.TraceEvent, wl bool) {
+							if cq != nil && ev.K == "app" && ev.Op == "Enter" {
+								cq.reset(ev.By)
+							}
 							if ev.K == "zk" && ev.At == pathLastSwitch && ev.Res == "ok" && (ev.Op == "Create" || ev.Op == "SetData") {
 								// ground truth at the success record (tree lock is held: read the
 								// master key from the world-independent copy kept below)
@@ -370,4 +391,49 @@ func (h *c06RaceHook) AfterZk(client, op, path string, code int32) bool {
 		return h.inner.AfterZk(client, op, path, code)
 	}
 	return false
+}
+
+
+// c06CatchupQueryHook: once a process has re-pointed and restarted a replica (START REPLICA answered), every later
+// gtid_executed query of that process to that server fails, until the process starts its next activation.
+type c06CatchupQueryHook struct {
+	mu      sync.Mutex
+	failing map[string]bool // "by>at"
+}
+
+func (h *c06CatchupQueryHook) reset(by string) {
+	h.mu.Lock()
+	for k := range h.failing {
+		if strings.HasPrefix(k, by+">") {
+			delete(h.failing, k)
+		}
+	}
+	h.mu.Unlock()
+}
+
+func (h *c06CatchupQueryHook) BeforeSQL(c *verifsim.SQLCall) verifsim.Decision {
+	h.mu.Lock()
+	defer h.mu.Unlock()
+	if c.Stmt == "GtidExecuted" && h.failing[c.By+">"+c.At] {
+		return verifsim.Decision{Err: &verifsim.MyErr{Code: 1053, State: "08S01", Msg: "Server shutdown in progress"}}
+	}
+	if c.Stmt == "StartReplica" && c.By != c.At {
+		// armed when the statement is issued (the scenario hook forwards only BeforeSQL): the queries that matter come later
+		if h.failing == nil {
+			h.failing = map[string]bool{}
+		}
+		h.failing[c.By+">"+c.At] = true
+	}
+	return verifsim.Decision{}
+}
+
+func (h *c06CatchupQueryHook) AfterSQL(c *verifsim.SQLCall, res string) {
+	if c.Stmt == "StartReplica" && res == "ok" && c.By != "" && c.By != "world" && c.By != c.At {
+		h.mu.Lock()
+		if h.failing == nil {
+			h.failing = map[string]bool{}
+		}
+		h.failing[c.By+">"+c.At] = true
+		h.mu.Unlock()
+	}
 }
